@@ -378,8 +378,8 @@ func sigKey(v Violation) string {
 		m = m[:i]
 	}
 	marker := ""
-	if i := strings.Index(m, " [mixed explicit/announce"); i >= 0 {
-		marker = " [mixed]"
+	if i := strings.Index(m, " [overtaken announcement"); i >= 0 {
+		marker = " [overtaken]"
 		m = m[:i]
 	}
 	m = brRe.ReplaceAllString(m, "[..]")
